@@ -37,6 +37,7 @@ def quick_plan():
     P += [("avx512", "O2", "cfloat", "sse"), ("avx512", "O2", "cdouble", "avx"), ("avx512", "O1", "cfloat", "avx"), ("avx512", "O1", "cdouble", "sse")]
     P += [("avx2", "O1", "cfloat", "sse"), ("avx2", "O1", "cdouble", "sse"), ("sse42", "O2", "int64_t", "sse"), ("avx512", "O2", "int64_t", "avx")]
     P += [("avx512", "O2", "int32_t", "avx"), ("avx512", "O2", "int64_t", "sse"), ("avx512", "O1", "float", "sse"), ("avx512", "O2", "double", "avx"), ("avx512", "O1", "int64_t", "avx")]
+    P += [("sse2", "O2", "kernels", "kernel"), ("avx", "O1", "kernels", "kernel"), ("avx2", "O2", "kernels", "kernel"), ("avx512", "O2", "kernels", "kernel")]
     P += [("scalar", "O1", "float", "sse"), ("scalar", "O2", "int64_t", "scalar"), ("scalar", "O1", "int32_t", "avx512"), ("scalar", "O2", "float", "scalar")]
     return P
 
@@ -54,6 +55,7 @@ def thorough_plan():
                         continue
                 for opt in ("O2", "O1"):
                     P.append((cfg, opt, t, abi))
+    P += [(cfg, opt, "kernels", "kernel") for cfg in core.ALL_ISAS for opt in ("O1", "O2")]
     P += [("sse2", "O0", t, "sse") for t in ALL_T] + [("avx2", "O0", t, "avx") for t in ALL_T] + [("avx512", "O0", t, "avx512") for t in ALL_T]
     return P
 
@@ -61,9 +63,9 @@ def thorough_plan():
 def groups_of(plan, seed, nrand):
     gs = []
     for (cfg, opt, t, abi) in plan:
+        call = ("run_kernels(%du);" % seed) if t == "kernels" else "run_simd<%s,Fastor::simd_abi::%s>(%du,%du);" % (TYPES[t], abi, seed, nrand)
         gs.append({"key": "%s/%s/%s/%s" % (cfg, opt, t, abi), "header": "simd_real.h", "isa": cfg, "opt": "-" + opt,
-                   "defs": ["-DOPTNAME=\"%s\"" % opt], "calls": ["run_simd<%s,Fastor::simd_abi::%s>(%du,%du);" % (TYPES[t], abi, seed, nrand)],
-                   "plan": (cfg, opt, t, abi)})
+                   "defs": ["-DOPTNAME=\"%s\"" % opt], "calls": [call], "plan": (cfg, opt, t, abi)})
     return gs
 
 
@@ -180,6 +182,37 @@ def ops_of_theorem(name):
     return m.groups() if m else (None, None)
 
 
+def untied_info(broken, reports):
+    """for every broken theorem: the generated definitions it mentions that the translator no longer produces, with the C
+    function they came from (label in the committed Generated file) and the construct that is outside the grammar now"""
+    prev = {}
+    for isa in reports:
+        try:
+            rc, out = core.run(["git", "show", "HEAD:lean/FastorModel/Generated/Simd_%s.lean" % isa], cwd=core.VERIF, timeout=60)
+        except Exception:
+            rc, out = 1, ""
+        if rc == 0:
+            for m in re.finditer(r"^-- (.*)\ndef (\S+)", out, flags=re.M): prev[(isa, m.group(2))] = m.group(1)
+    now = {isa: set(r["translated"]) for isa, r in reports.items()}
+    why = {isa: dict(r["untranslated"]) for isa, r in reports.items()}
+    info = {}
+    for mod in PROP_MODULES:
+        path = os.path.join(core.LEAN, "FastorModel", "Props", mod + ".lean")
+        src = open(path).read().split("\n")
+        for (a, b, nm) in theorem_lines(mod):
+            tag = nm if mod in ("C08", "C08Kernels") else "%s.%s" % (mod.replace("C08Ops_", ""), nm)
+            if tag not in broken: continue
+            text = "\n".join(src[a - 1:b])
+            gone = []
+            for isa, d in set(re.findall(r"\b(sse2|avx2|avx512)\.([A-Za-z_][\w.]*)", text)):
+                d = d.rstrip(".")
+                if isa in now and d not in now[isa]:
+                    label = prev.get((isa, d))
+                    gone.append({"definition": "%s.%s" % (isa, d), "function": label or "?", "outside_grammar": why[isa].get(label, "not produced by the translator any more") if label else "?"})
+            info[tag] = gone
+    return info
+
+
 def run(tier, seed):
     v = core.Verdict(PID, tier, seed)
     v.assumptions = [
@@ -265,16 +298,24 @@ def run(tier, seed):
             found = len(v.violations) > before or bool(v.known_hits)
             if not found:
                 cfgs = sorted(set(ops_of_theorem(b)[0] or "avx2" for b in broken))
-                p2 = [(c, o, t, a) for (c, o, t, a) in thorough_plan() if c in cfgs and a in NATIVE[c]]
+                p2 = [(c, o, t, a) for (c, o, t, a) in thorough_plan() if c in cfgs and (a in NATIVE[c] or t == "kernels")]
                 for s2 in (seed + 101, seed + 202):
                     l2, _ = run_harness(groups_of(p2, s2, 400), wd)
                     b2 = len(v.violations)
                     report_lines(v, l2, stats)
                     if len(v.violations) > b2: found = True; break
+            gone = untied_info(broken, reports)
             for b in broken:
-                v.violation("proof-obligation " + b, {"kind": "proof-obligation", "theorem": b, "errors": proof_info.get("errors"),
-                            "note": "the lane theorem about the definition generated from the current repo tree no longer builds: the code's straight-line intrinsic sequence changed. "
-                                    + ("Failing inputs on the real code are reported in the other replay files." if found else "The search on the real code found no failing input.")},
+                g = gone.get(b, [])
+                if g:
+                    v.notes.append("theorem %s is no longer tied to the code: %s" % (b, "; ".join("%s [%s] is UNTRANSLATED now (%s)" % (x["definition"], x["function"][:90], x["outside_grammar"][:120]) for x in g)))
+                    note = ("the theorem can no longer be stated about the code: the function(s) listed in `no_longer_translated` were rewritten with a construct outside the translator's grammar. "
+                            "This is NOT evidence of a defect by itself; the real functions were run lane by lane against the scalar / specification oracle on boundary and seeded values. ")
+                else:
+                    v.notes.append("theorem %s no longer builds against the definitions generated from the current tree (the code's intrinsic sequence changed)" % b)
+                    note = "the lane theorem about the definition generated from the current repo tree no longer builds: the code's straight-line intrinsic sequence changed. "
+                v.violation("proof-obligation " + b, {"kind": "proof-obligation", "theorem": b, "no_longer_translated": g, "errors": [e for e in (proof_info.get("errors") or []) if True][:30],
+                            "note": note + ("Failing inputs on the real code are reported in the other replay files." if found else "The search on the real code (quick plan + the enlarged plan, incl. the kernel oracles) found no failing input.")},
                             nofail=not found)
     v.cov.update({"evaluations": stats["evals"], "distinct_nontrivial": len(stats["cases"]),
                   "rule": "one case = (configuration, optimisation level, T, ABI, operation); each runs the boundary cross product (|pool|^2 lane-rotated operand pairs) plus seeded random lanes "
